@@ -206,6 +206,7 @@ def aggregate(pid, prop, tier, seed, rundir, nshards, status, t0, replay=False):
 
     # ---- floors (coverage of the monitors; DESIGN 2.4)
     inconclusive = list(problems)
+    anchors_not_executed = []
     n_harness = sum(1 for e in events if e["v"] == "inconclusive")
     if n_harness:
         ex = next(e for e in events if e["v"] == "inconclusive")
@@ -218,9 +219,14 @@ def aggregate(pid, prop, tier, seed, rundir, nshards, status, t0, replay=False):
             if mon.get(m, [0, 0])[1] == 0:
                 inconclusive.append("monitor '%s' never evaluated non-vacuously" % m)
         if any(s.get("cov_on") for s in summaries):
-            for a, r in anchors.items():
-                if r is not None and r[0] == 0 and a not in getattr(prop, "ANCHORS_OPTIONAL", []):
-                    inconclusive.append("anchored mechanism %s never executed" % a)
+            # the anchored mechanisms are supporting evidence that the workload reaches the code the property names.  A single
+            # anchor that exists but was not executed is reported; the run is inconclusive only if most of them were not reached
+            # (a behaviour-preserving refactoring may leave an old helper defined but unused).
+            dead = [a for a, r in anchors.items() if r is not None and r[0] == 0 and a not in getattr(prop, "ANCHORS_OPTIONAL", [])]
+            live = [a for a, r in anchors.items() if r is not None and r[0] > 0]
+            anchors_not_executed.extend(dead)
+            if dead and len(dead) > len(live):
+                inconclusive.append("most anchored mechanisms were never executed: %s" % dead[:6])
         if not events:
             inconclusive.append("no events")
     if len(lib_files) > 1:
@@ -264,6 +270,7 @@ def aggregate(pid, prop, tier, seed, rundir, nshards, status, t0, replay=False):
             "random_cases_planned": rnd_planned, "random_cases_run": rnd_done,
             "shards": nshards, "shard_status": status,
             "inconclusive_reasons": inconclusive,
+            "anchors_not_executed": anchors_not_executed,
             "probe_alerts": sum(s.get("probe_alerts", 0) for s in summaries),
             "repo": ident,
             "exhaustive": False,
